@@ -7,7 +7,8 @@ from .ops import Config
 
 def big_ops(n_sites=320, per_site=4):
     ops = []
-    sites = [b"s:http|h:com|h:s%03d|" % i for i in range(n_sites)]
+    # site names in a scrambled (but fixed) order, so that the sibling BST of the hosts is bushy rather than one long chain
+    sites = [b"s:http|h:com|h:s%03d|" % ((i * 7919 + 13) % n_sites) for i in range(n_sites)]
     names = [b"p:a|", b"p:b|", b"p:c|p:d|", b"p:e|"][:per_site]
     for i, s in enumerate(sites):
         ops.append(("pages", [s + n for n in names], i % 2 == 0))
